@@ -5,6 +5,7 @@ import (
 	"reflect"
 	"sync"
 
+	"github.com/elastic/go-structform/gotype"
 	"pgregory.net/rapid"
 
 	"verif/harness/gen"
@@ -20,6 +21,9 @@ import (
 type C19Job struct {
 	Item  int    `json:"item"`  // index into Items (gotype pipelines) or Streams (codec pipelines)
 	Route string `json:"route"` // direct | json | ubjson | cborl | codec:<format>
+	// Recycle: the goroutine keeps ONE unfolder for all its repetitions, created
+	// without a target and recycled with Reset + SetTarget before every document
+	Recycle bool `json:"recycle,omitempty"`
 }
 
 type C19Case struct {
@@ -35,7 +39,10 @@ type c19Result struct {
 	raw []byte
 }
 
-func c19Run(c *C19Case, j C19Job, types []reflect.Type, vals []reflect.Value) c19Result {
+// c19Inst holds the long-lived instances of one goroutine.
+type c19Inst struct{ u *gotype.Unfolder }
+
+func c19Run(c *C19Case, j C19Job, types []reflect.Type, vals []reflect.Value, inst *c19Inst) c19Result {
 	if len(j.Route) > 6 && j.Route[:6] == "codec:" {
 		cd := codecs[j.Route[6:]]
 		evs := c.Streams[j.Item]
@@ -54,7 +61,30 @@ func c19Run(c *C19Case, j C19Job, types []reflect.Type, vals []reflect.Value) c1
 		}
 		return c19Result{v: v, out: "ok", raw: data}
 	}
-	target, stage, o := roundTrip(j.Route, types[j.Item], vals[j.Item])
+	var target reflect.Value
+	var stage string
+	var o Outcome
+	if inst != nil && j.Recycle {
+		target = reflect.New(types[j.Item])
+		o = guard(func() error {
+			if inst.u == nil {
+				var err error
+				if inst.u, err = newUnfolder(nil, reflect.PointerTo(types[j.Item])); err != nil {
+					return err
+				}
+			}
+			inst.u.Reset()
+			return inst.u.SetTarget(target.Interface())
+		})
+		stage = "SetTarget"
+		if !o.Panicked() && o.Err == nil {
+			stage, o = roundTripInto(inst.u, j.Route, vals[j.Item])
+		} else if !o.Panicked() {
+			stage = "NewUnfolder" // the same refusal a new unfolder reports
+		}
+	} else {
+		target, stage, o = roundTrip(j.Route, types[j.Item], vals[j.Item])
+	}
 	if o.Panicked() || o.Err != nil {
 		return c19Result{out: stage[:min(len(stage), 12)] + ": " + o.String()}
 	}
@@ -102,8 +132,9 @@ func checkC19(ci any, info *CaseInfo) string {
 		go func(g int) {
 			defer done.Done()
 			start.Wait()
+			inst := &c19Inst{}
 			for r := 0; r < rep; r++ {
-				results[g] = append(results[g], c19Run(c, c.Jobs[g], types, vals))
+				results[g] = append(results[g], c19Run(c, c.Jobs[g], types, vals, inst))
 			}
 		}(g)
 	}
@@ -111,7 +142,7 @@ func checkC19(ci any, info *CaseInfo) string {
 	done.Wait()
 	// sequential reference
 	for g := 0; g < G; g++ {
-		ref := c19Run(c, c.Jobs[g], types, vals)
+		ref := c19Run(c, c.Jobs[g], types, vals, nil)
 		for r, got := range results[g] {
 			if got.out != ref.out {
 				return fmt.Sprintf("goroutine %d (job %+v), repetition %d: outcome %q under concurrency, %q when run alone", g, c.Jobs[g], r, got.out, ref.out)
@@ -172,7 +203,7 @@ func drawC19(t *rapid.T) any {
 		if rapid.IntRange(0, 3).Draw(t, "codecjob") == 3 {
 			c.Jobs = append(c.Jobs, C19Job{Item: rapid.IntRange(0, ns-1).Draw(t, "sitem"), Route: "codec:" + rapid.SampledFrom(formatNames).Draw(t, "cfmt")})
 		} else {
-			c.Jobs = append(c.Jobs, C19Job{Item: rapid.IntRange(0, len(c.Items)-1).Draw(t, "item"), Route: rapid.SampledFrom(routes).Draw(t, "route")})
+			c.Jobs = append(c.Jobs, C19Job{Item: rapid.IntRange(0, len(c.Items)-1).Draw(t, "item"), Route: rapid.SampledFrom(routes).Draw(t, "route"), Recycle: rapid.Bool().Draw(t, "recycle")})
 		}
 	}
 	return c
@@ -181,7 +212,7 @@ func drawC19(t *rapid.T) any {
 func init() {
 	register(&Property{
 		ID:            "C19",
-		Rule:          "programs of G goroutines (quick: 2..8, thorough: 2..16) released by a barrier, each running its own pipeline — Fold -> Unfold directly or through the json/ubjson/cborl encoder and parser, or encoder -> parser over a shared event stream — 1..3 times on its OWN instances over SHARED input values and SHARED freshly generated reflect.StructOf types (first use under contention) plus pool types incl. the self-referential ones; half of the programs take a FRESH member of a family of 144 self-referential generic types and let the goroutines use R, *R, []R and struct{P *R; S []R} at the same time (first use of a recursive type under contention); the binary is built with -race (GORACE=halt_on_error): any race report, 'concurrent map' fatal error or crash is a violation; differential: every goroutine's outcome and value equal those of the same job run alone afterwards. Schedules are sampled by the Go scheduler (GOMAXPROCS 4, varied in the thorough tier), not enumerated. non-trivial = at least two goroutines share an item (type or stream) and route; distinct by case hash",
+		Rule:          "programs of G goroutines (quick: 2..8, thorough: 2..16) released by a barrier, each running its own pipeline — Fold -> Unfold directly or through the json/ubjson/cborl encoder and parser, or encoder -> parser over a shared event stream — 1..3 times on its OWN instances (half of the goroutines keep one unfolder, created without target and recycled with Reset + SetTarget before every document) over SHARED input values and SHARED freshly generated reflect.StructOf types (first use under contention) plus pool types incl. the self-referential ones; half of the programs take a FRESH member of a family of 144 self-referential generic types and let the goroutines use R, *R, []R and struct{P *R; S []R} at the same time (first use of a recursive type under contention); the binary is built with -race (GORACE=halt_on_error): any race report, 'concurrent map' fatal error or crash is a violation; differential: every goroutine's outcome and value equal those of the same job run alone afterwards. Schedules are sampled by the Go scheduler (GOMAXPROCS 4, varied in the thorough tier), not enumerated. non-trivial = at least two goroutines share an item (type or stream) and route; distinct by case hash",
 		New:           func() any { return &C19Case{} },
 		Draw:          drawC19,
 		Check:         checkC19,
